@@ -114,6 +114,16 @@ package logf
 //@   perreturn
 //@   modifies buf.buf.bytes
 //@   ensures [C03] err == nil && buf.buf.bytes == pre
+//@   site Buffer).Write#1 assert [C03] buf.buf.bytes == e1
+//@   site Buffer).Write#2 assert [C03] buf.buf.bytes == e2
+//@   site Buffer).Write#3 assert [C03] buf.buf.bytes == e3
+//@   site if#4 assert [C03] buf.buf.bytes == e4
+//@   site if#6 assert [C03] buf.buf.bytes == e5
+//@   site if#8 assert [C03] buf.buf.bytes == e6
+//@   site if#10 assert [C03] buf.buf.bytes == e7
+//@   site if#12 assert [C03] buf.buf.bytes == e8
+//@   site if#14 assert [C03] buf.buf.bytes == e9
+//@   site if#16 assert [C03] buf.buf.bytes == e10
 //@   safety [C03]
 //
 //@ func (*LogInfo).WriteBlock
